@@ -47,6 +47,7 @@ class Script:
 
     def reset(self):
         self.ints, self.bools = list(self.ints0), list(self.bools0)
+        self.last = None
         self.draw_ranges: list = []
 
     def call_model(self, it: Interp, call: ast.Call, env: dict, args: list, kwargs: dict) -> Any:
@@ -60,12 +61,25 @@ class Script:
             if self.ints:
                 v = self.ints.pop(0)
                 self.draw_ranges.append((args[0], args[1], v))
+                self.last = v
+                return v
+            if isinstance(hi, int) and isinstance(args[0], int) and hi < 1000 and getattr(self, "last", None) is not None and hi >= args[0]:
+                # a further positional draw (a retry): another position of the same range
+                v = args[0] + (self.last - args[0] + 1) % (hi - args[0] + 1)
+                self.draw_ranges.append((args[0], args[1], v))
+                self.last = v
                 return v
             return Sym("newgene")
         if nm == "random_bool" and not args:
             return self.bools.pop(0) if self.bools else UNKNOWN
         if nm == "choice" and len(args) == 1 and isinstance(args[0], list) and args[0]:
             return args[0][self.choice_idx % len(args[0])]
+        if nm in ("create_tree_using_stacks", "genotype_to_phenotype", "random_tree", "random_node") and not (isinstance(call.func, ast.Attribute)
+                                                                                                            and isinstance(call.func.value, ast.Name) and call.func.value.id == "self" and nm == "genotype_to_phenotype" and False):
+            # mapping a genotype inside an operator (a viability test): it succeeds or fails with the library's error - both are explored
+            if it.choose():
+                return Sym("phenotype")
+            it.throw("GeneticEngineError: the genotype does not map", call)
         if nm == "deepcopy" and len(args) == 1:
             return _deep(args[0])
         if nm == "copy" and len(args) == 1 and isinstance(call.func, (ast.Name, ast.Attribute)):
@@ -83,7 +97,7 @@ def make_parent(gcls, dna: Any, tag: str) -> Obj:
 
 
 def run_operator(ctx, f: FunctionInfo, script: Script, env_extra: dict, parents: dict):
-    it = Interp(ctx.prog, f.cls, lambda *_: None, script.call_model, max_depth=5, max_traces=16)
+    it = Interp(ctx.prog, f.cls, lambda *_: None, script.call_model, max_depth=5, max_traces=80)
     it.on_start = script.reset
     env = {"self": Sym("self"), f.params[1]: Sym("random")}
     env.update(env_extra)
